@@ -63,3 +63,41 @@ Theorem C08_invoked_only_valid : forall ip6 handler mw up ip fp evs,
       up = true /\ exists t, titan_from_line ip6 line = Ok t /\ N.of_nat (length content) = t_size t).
 Proof. exact C08_server.invoked_only_valid. Qed.
 Print Assumptions C08_invoked_only_valid.
+
+(* ---- tie to the code (utils/url.py, protocol/request.py): the statements of coq/Equiv/EquivUrl.v, re-checked here against the definitions regenerated
+   from /repo's working tree (coq/Gen); see DESIGN.md 11.8 ---- *)
+From Coq Require Import List NArith ZArith Bool.
+From NV Require Import Prelude.Str Prelude.Res Prelude.Utf8 Model.Url Model.Titan Equiv.UrlGlue Gen.UrlGen.
+From NV Require Equiv.EquivUrl.
+Theorem C08_code_parse_url_tie : forall ip6 u,
+  gen_parse_url (urlparse ip6) u = res_map purl_of_parsed (parse_url ip6 u).
+Proof. exact EquivUrl.parse_url_tie. Qed.
+Print Assumptions C08_code_parse_url_tie.
+
+Theorem C08_code_gemini_from_line_full_tie : forall ip6 line,
+  gen_gemini_from_line (gen_validate_url (gen_parse_url (urlparse ip6))) (gen_parse_url (urlparse ip6)) line
+  = res_map (greq_of_parsed line) (gemini_from_line_full ip6 line).
+Proof. exact EquivUrl.gemini_from_line_full_tie. Qed.
+Print Assumptions C08_code_gemini_from_line_full_tie.
+
+Theorem C08_code_gemini_from_line_model : forall ip6 line,
+  abbreviate (gemini_from_line_full ip6 line) = gemini_from_line ip6 line.
+Proof. exact EquivUrl.gemini_from_line_model. Qed.
+Print Assumptions C08_code_gemini_from_line_model.
+
+Theorem C08_code_gemini_from_line_tie : forall ip6 line,
+  abbreviate (gen_gemini_from_line (gen_validate_url (gen_parse_url (urlparse ip6))) (gen_parse_url (urlparse ip6)) line)
+  = res_map (greq_of_parsed line) (gemini_from_line ip6 line).
+Proof. exact EquivUrl.gemini_from_line_tie. Qed.
+Print Assumptions C08_code_gemini_from_line_tie.
+
+Theorem C08_code_parse_titan_params_tie : forall s, gen_parse_titan_params s = Ok (parse_params s).
+Proof. exact EquivUrl.parse_titan_params_tie. Qed.
+Print Assumptions C08_code_parse_titan_params_tie.
+
+Theorem C08_code_titan_from_line_tie : forall ip6 line,
+  gen_titan_from_line gen_parse_titan_params (gen_parse_url (urlparse ip6)) line
+  = res_map gtreq_of_treq (titan_from_line ip6 line).
+Proof. exact EquivUrl.titan_from_line_tie. Qed.
+Print Assumptions C08_code_titan_from_line_tie.
+
